@@ -43,9 +43,9 @@ def traffic(rng, flights, n, malformed=True):
         elif malformed: lines.append(rng.choice(MALFORMED))
     return lines
 
-def model_tracker(lines, pre=()):
+def model_tracker(lines, pre=(), rx=None):
     """tracker digest + statistics of the Lean model after the decodable lines, in order"""
-    ops = ["T reset %s %s 500" % RX] + list(pre)
+    ops = ["T reset %s %s 500" % (rx or RX)] + list(pre)
     for l in split_lines(b"".join(lines)):
         b = parse_line(l)
         if b is not None: ops.append("T act " + b.hex())
@@ -67,7 +67,9 @@ def parse_digest(dump):
     return recs
 
 # ------------------------------------------------------------------ reading the Airplanes and Stats tabs
-COLS = [("icao", 0, 6), ("cs", 7, 16), ("lat", 17, 24), ("lon", 25, 32), ("heading", 33, 40), ("alt", 41, 49), ("fpm", 50, 56), ("speed", 57, 62), ("dist", 63, 71), ("msgs", 72, 78)]
+# column start / end offsets from the "ICAO" header, from the widths of `build_tab_airplanes` (6 9 7 8 7 8 6 5 8 6, one cell between columns);
+# the Long column is 8 cells wide since /repo 2f73ca7
+COLS = [("icao", 0, 6), ("cs", 7, 16), ("lat", 17, 24), ("lon", 25, 33), ("heading", 34, 41), ("alt", 42, 50), ("fpm", 51, 57), ("speed", 58, 63), ("dist", 64, 72), ("msgs", 73, 79)]
 def table_rows(text):
     lines = text.split("\n")
     hdr = next((i for i, l in enumerate(lines) if "ICAO" in l and "Call sign" in l), None)
@@ -144,6 +146,36 @@ def start_many_messages(rng, tier, report):
             r.send(b"q"); r.wait_exit(3.0); r.kill(); f.stop()
     t = threading.Thread(target=run, daemon=True); t.start()
     return t
+
+def check_table_far_longitudes(rng, tier, report):
+    """receivers whose longitudes need every character of the column: west of 100 W ("-122.419" has eight characters; the column was seven
+    cells wide until /repo 2f73ca7 and the table showed "-122.41"), next to the antimeridian on both sides, east of 100 E, far south"""
+    sites = [(37.6, -122.4), (61.2, -149.9), (-17.5, -179.6), (-36.8, 174.8), (35.5, 139.8), (-77.8, 166.7)]
+    for k, rx in enumerate(sites if tier != "quick" else sites[:4]):
+        sub = Rng(rng.next())
+        fls = []
+        for i in range(3):
+            fl = gentrack.Flight(sub, 0xA30000 + 0x111 * i + k, rx, plain=True)
+            fl.lat = Fr(rx[0]) + Fr(sub.below(600) - 300, 1000); fl.lon = ((Fr(rx[1]) + Fr(sub.below(600) - 300, 1000) + 180) % 360) - 180
+            fl.callsign = "W%d%d" % (k, i); fls.append(fl)
+        lines = []
+        for fl in fls: lines += [fline(fl.position(sub, odd=0)), fline(fl.position(sub, odd=1)), fline(fl.frame(gentrack.me_ident(4, 0, fl.callsign)))]
+        f = Feed(); f.run([("accept",), ("send", b"".join(lines)), ("sleep", 600)])
+        r = Radar(f.port, latlon=rx)
+        name = "table/longitude-%s" % ("%.1f" % rx[1]).replace("-", "w")
+        try:
+            r.pump(1.0); r.send(KEYS["F3"]); r.pump(0.8)
+            dump, stats, _ = model_tracker(lines, rx=rx)
+            recs = parse_digest(dump)
+            rows = table_rows(r.screen.text())
+            diffs = compare_table(rows, recs)
+            alive = r.poll() is None
+            report(name, alive and not diffs and len(recs) == 3 and all(d["details"] for d in recs), {"differences": diffs[:8], "receiver": rx, "rows": [(x["icao"], x["lat"], x["lon"]) for x in rows or []],
+                   "records_with_position": sum(1 for d in recs if d["details"]), "alive": alive})
+        except Exception as e:
+            report(name, False, {"exception": repr(e)})
+        finally:
+            r.send(b"q"); r.wait_exit(3.0); r.kill(); f.stop()
 
 def stats_values(text):
     most = total = None
